@@ -12,8 +12,8 @@
                     text, its result or its error object;
      [resp_body]    the parsed body of the Bridge's HTTP response (single object / array; 204: nothing).
 
-   [bridge_round_trips]: round trip j carried the request of operation [sender j] (an operation that got past
-   Send), distinct round trips those of distinct operations, and its response body is what the Bridge model
+   [bridge_round_trips]: round trip j carried the request of operation [sender j] (an operation that reached
+   Send: it has allocated one id per call), distinct round trips those of distinct operations, and its response body is what the Bridge model
    computes for it with ANY inner client+server satisfying inner_ok (whatever the handlers answer, whatever id
    the shared client has reached, whatever the batch flag).  Then every reply record answers exactly the ids of
    its own request record: [bridge_answers_own_requests]; and the composed theorem [same_results_bridge]. *)
@@ -137,23 +137,31 @@ Qed.
 Lemma op_record_valid s o m : In m (op_record s o) -> j_err m = None.
 Proof. unfold op_record. intros H. apply in_map_iff in H. destruct H as (t & <- & _). reflexivity. Qed.
 
-(* ... for the request record of an operation of the client model that got past Send: the ids of the answer are
-   the ids of the operation *)
+(* ... for the request record of an operation of the client model that has allocated an id for each of its calls
+   ([ids_allocated]: true of every operation that reached Send, whatever became of it later: cnt_ok in CliSend.v,
+   [reached_send_ids_allocated] below): the ids of the answer are the ids of the operation *)
+Definition ids_allocated (o : oprec) : Prop := length (o_slots o) = nn (o_specs o).
+
 Lemma bridge_answers_op c tr s n o inner next bflag :
-  traces_to c tr s -> op_at s n = Some o -> sent o = true -> BridgeProofs.inner_ok inner ->
+  traces_to c tr s -> op_at s n = Some o -> ids_allocated o -> BridgeProofs.inner_ok inner ->
   exists st body, bridge_answer inner next (op_request bflag s o) = Some (st, body)
     /\ reply_ids (body_msgs body) = op_ids s n.
 Proof.
-  intros T Ho Hsent Hin.
+  intros T Ho L Hin. unfold ids_allocated in L.
   assert (R := traces_reach _ _ _ T). destruct (invS_reach c s R) as [I S].
-  destruct (S n o Ho) as (_ & Cnt & _).
-  assert (L : length (o_slots o) = nn (o_specs o)).
-  { unfold sent in Hsent. unfold cnt_ok in Cnt. destruct (o_pc o); try discriminate; auto. }
   destruct (bridge_reply_ids inner next bflag (op_record s o) Hin (op_record_valid s o)) as (st & body & E1 & E2).
   exists st, body. split; [exact E1|]. rewrite E2. unfold op_record.
   rewrite (call_ids_record _ _ _ L (slots_exist s n o I Ho)).
   unfold op_ids. rewrite Ho. rewrite map_map. apply map_ext_in. intros i Hi.
   destruct (slots_exist s n o I Ho i Hi) as (sl & Hs). unfold slot_text. rewrite Hs. apply fix_id_text.
+Qed.
+
+Lemma reached_send_ids_allocated c tr s n o : traces_to c tr s -> op_at s n = Some o ->
+  o_pc o = PSend \/ sent o = true -> ids_allocated o.
+Proof.
+  intros T Ho H. destruct (invS_reach c s (traces_reach _ _ _ T)) as [_ S]. destruct (S n o Ho) as (_ & Cnt & _).
+  unfold ids_allocated, cnt_ok, sent in *. destruct H as [H|H]; [rewrite H in Cnt; exact Cnt|].
+  destruct (o_pc o); try discriminate; auto.
 Qed.
 
 (** * the coupling of the channel run with the client run and the Bridge model *)
@@ -162,7 +170,7 @@ Definition bridge_round_trips (s : CliModel.state) (htr : list HttpChan.label) (
     BridgeProofs.inner_ok inner
     /\ (forall j j', j < n_send htr -> j' < n_send htr -> sender j = sender j' -> j = j')
     /\ (forall j, j < n_send htr ->
-          exists o st, op_at s (sender j) = Some o /\ sent o = true
+          exists o st, op_at s (sender j) = Some o /\ ids_allocated o
             /\ bridge_answer inner (next j) (op_request (bflag j) s o) = Some (st, body j)
             /\ do_result htr j = DoStatus st).
 
@@ -258,8 +266,8 @@ Proof.
   { exists (fun j => j), ex_inner, (fun j => N.of_nat (2 * j + 1)), (fun j => negb (j =? 0)).
     split; [apply BridgeProofs.table_inner_ok|]. split; [auto|].
     intros j Hj. assert (Hj' : j < 2) by exact Hj. destruct j as [|[|j]]; [| |lia].
-    - eexists; eexists. split; [reflexivity|]. split; [reflexivity|]. split; vm_compute; reflexivity.
-    - eexists; eexists. split; [reflexivity|]. split; [reflexivity|]. split; vm_compute; reflexivity. }
+    - eexists; eexists. split; [reflexivity|]. split; [vm_compute; reflexivity|]. split; vm_compute; reflexivity.
+    - eexists; eexists. split; [reflexivity|]. split; [vm_compute; reflexivity|]. split; vm_compute; reflexivity. }
   vm_compute. repeat (split; [reflexivity|]).
   repeat split; auto 10.
 Qed.
